@@ -24,7 +24,9 @@ MANIFEST = {
     "text": "Complete static comparison: the two parallel declaration families are compared variant by variant and field by field from the "
             "compiler's ADT tables; the serde-derived Serialize bodies of both families are read from MIR and compared arm by arm (call kind, "
             "index, names, field order); the hand-written 26+4+1+1-arm conversion is checked arm by arm for kind and field provenance. All "
-            "26+4+2+2 items are obligations, so a swap of two adjacent variants or fields anywhere is a violation whether or not a sample hits it.",
+            "26+4+2+2 items are obligations, so a swap of two adjacent variants or fields anywhere is a violation whether or not a sample hits it. "
+            "Every clause is decided in the workspace configuration (use-std) and in the alloc-only configuration of postcard-schema, whose feature-gated "
+            "siblings no test compiles.",
     "note": "Trusted: serde_derive's generated code means what its Serializer calls say; postcard encodes those calls per C02 (index as varint, fields in call order).",
     "technique": "static analysis: ADT table comparison + sibling agreement of derive-generated MIR + per-arm provenance check of every fn(&Borrowed) -> Owned conversion",
 }
